@@ -12,7 +12,8 @@ Open Scope Z_scope.
 (* entry objects; sid is the identity of the Go *Entry *)
 Record sentry := mkE {
   sid : Z; skey : Z; sval : Z; sweight : Z; sexpire : Z; spw : Z; shash : Z;
-  f_removed : bool; f_deleted : bool; f_nvm : bool }.
+  f_removed : bool; f_deleted : bool; f_nvm : bool;
+  f_dirty : bool }.   (* overwritten in place after a promotion: the secondary copy no longer matches *)
 
 (* event codes as in entry.go *)
 Definition cNEW : Z := 0.  Definition cREMOVE : Z := 1.  Definition cUPDATE : Z := 2.
@@ -62,13 +63,14 @@ Definition set_secerrs (s : store) x := mkS (ents s) (smap s) (queue s) (pol s) 
 Definition upd_ent (s : store) (id : Z) (f : sentry -> sentry) : store :=
   set_ents s (map (fun e => if sid e =? id then f e else e) (ents s)).
 
-Definition e_val (e : sentry) v := mkE (sid e) (skey e) v (sweight e) (sexpire e) (spw e) (shash e) (f_removed e) (f_deleted e) (f_nvm e).
-Definition e_weight (e : sentry) v := mkE (sid e) (skey e) (sval e) v (sexpire e) (spw e) (shash e) (f_removed e) (f_deleted e) (f_nvm e).
-Definition e_expire (e : sentry) v := mkE (sid e) (skey e) (sval e) (sweight e) v (spw e) (shash e) (f_removed e) (f_deleted e) (f_nvm e).
-Definition e_pw (e : sentry) v := mkE (sid e) (skey e) (sval e) (sweight e) (sexpire e) v (shash e) (f_removed e) (f_deleted e) (f_nvm e).
-Definition e_removed (e : sentry) v := mkE (sid e) (skey e) (sval e) (sweight e) (sexpire e) (spw e) (shash e) v (f_deleted e) (f_nvm e).
-Definition e_deleted (e : sentry) v := mkE (sid e) (skey e) (sval e) (sweight e) (sexpire e) (spw e) (shash e) (f_removed e) v (f_nvm e).
-Definition e_nvm (e : sentry) v := mkE (sid e) (skey e) (sval e) (sweight e) (sexpire e) (spw e) (shash e) (f_removed e) (f_deleted e) v.
+Definition e_val (e : sentry) v := mkE (sid e) (skey e) v (sweight e) (sexpire e) (spw e) (shash e) (f_removed e) (f_deleted e) (f_nvm e) (f_dirty e).
+Definition e_weight (e : sentry) v := mkE (sid e) (skey e) (sval e) v (sexpire e) (spw e) (shash e) (f_removed e) (f_deleted e) (f_nvm e) (f_dirty e).
+Definition e_expire (e : sentry) v := mkE (sid e) (skey e) (sval e) (sweight e) v (spw e) (shash e) (f_removed e) (f_deleted e) (f_nvm e) (f_dirty e).
+Definition e_pw (e : sentry) v := mkE (sid e) (skey e) (sval e) (sweight e) (sexpire e) v (shash e) (f_removed e) (f_deleted e) (f_nvm e) (f_dirty e).
+Definition e_removed (e : sentry) v := mkE (sid e) (skey e) (sval e) (sweight e) (sexpire e) (spw e) (shash e) v (f_deleted e) (f_nvm e) (f_dirty e).
+Definition e_deleted (e : sentry) v := mkE (sid e) (skey e) (sval e) (sweight e) (sexpire e) (spw e) (shash e) (f_removed e) v (f_nvm e) (f_dirty e).
+Definition e_nvm (e : sentry) v := mkE (sid e) (skey e) (sval e) (sweight e) (sexpire e) (spw e) (shash e) (f_removed e) (f_deleted e) v (f_dirty e).
+Definition e_dirty (e : sentry) v := mkE (sid e) (skey e) (sval e) (sweight e) (sexpire e) (spw e) (shash e) (f_removed e) (f_deleted e) (f_nvm e) v.
 
 Definition tracked (s : store) (id : Z) : bool := negb (region (pol s) id =? 0).
 
@@ -87,7 +89,7 @@ Definition removeEntry (s : store) (id reason now : Z) : store * list Z :=
       let s := if scheduled (whl s) id then set_whl s (deschedule (whl s) id) else s in
       if reason =? reasonREMOVED then
         (upd_ent s id (fun e => e_deleted e true), [skey e; sval e; reasonREMOVED])
-      else if (reason =? reasonEVICTED) && hyb s && negb (f_nvm e) && (Z.of_nat (length (hand s)) <? 256) then
+      else if (reason =? reasonEVICTED) && hyb s && negb (f_nvm e && negb (f_dirty e)) && (Z.of_nat (length (hand s)) <? 256) then
         (* handed to a secondary-cache worker (admission probability 1): stays in the map until written *)
         (set_hand s (hand s ++ [id]), [])
       else
@@ -239,13 +241,13 @@ Definition set_section (s : store) (k v cost expire now h : Z) (dk nvm : bool) :
       | None => (s, true, false)
       | Some e =>
           let '(ex, resched) := updateExpire (sexpire e) expire now in
-          let s := invalidate (upd_ent s id (fun e => e_weight (e_val (e_expire e ex) v) cost)) k nvm in
+          let s := invalidate (upd_ent s id (fun e => e_dirty (e_weight (e_val (e_expire e ex) v) cost) (f_dirty e || negb nvm))) k nvm in
           (send s (mkW cUPDATE id (s64 (cost - sweight e)) resched false h), true, true)
       end
   | None =>
       if negb dk then (s, false, false) else
       let id := nextid s in
-      let e := mkE id k v cost expire 0 h false false false in
+      let e := mkE id k v cost expire 0 h false false false false in
       let s := invalidate (set_nextid (set_smap (set_ents s (e :: ents s)) (map_set (smap s) k id)) (id + 1)) k nvm in
       (send s (mkW cNEW id cost false nvm h), true, true)
   end.
